@@ -245,7 +245,58 @@ def check(run, ctx):
             run.finding(U4, r.short, f"shares:{clash}", f"{r.short} reads configuration section(s) also read by {clash}", r.cls.loc)
         else:
             run.ok(U4, r.short, f"reads {sorted(mine) or 'no section'}", nontrivial=bool(mine))
+
+    U6 = run.rule("U6", "shared helpers that take the caller's violation_builder return only violations built by that builder in that call (or none)", floor=1,
+                  decides="a syntax-error notice carries the id of the rule that is running, so each command keeps its own notice and shows nobody else's")
+    n_u6 = 0
+    for f in sorted(repo.funcs.values(), key=lambda x: x.qual):
+        if not f.module.name.startswith("src.core.") or f.parent is not None:
+            continue
+        params = [a.arg for a in f.node.args.args]
+        if "violation_builder" not in params:
+            continue
+        n_u6 += 1
+        built = {t.id for n in ast.walk(f.node) if isinstance(n, ast.Assign) and _built_by_param(n.value) for t in n.targets if isinstance(t, ast.Name)}
+        # results of sibling helpers that are handed this call's builder
+        built |= {el.id for n in ast.walk(f.node) if isinstance(n, ast.Assign) and isinstance(n.value, ast.Call) and any(isinstance(a, ast.Name) and a.id == "violation_builder" for a in n.value.args)
+                  for t in n.targets for el in (t.elts if isinstance(t, ast.Tuple) else [t]) if isinstance(el, ast.Name)}
+        bad = None
+        for n in ast.walk(f.node):
+            if not isinstance(n, ast.Return) or n.value is None:
+                continue
+            vals = n.value.elts if isinstance(n.value, ast.Tuple) else [n.value]
+            for v in vals:
+                if _violation_free(v) or _built_by_param(v) or _all_names_in(v, built) or (isinstance(v, ast.Call) and not _mentions_storage(v)):
+                    continue
+                bad = (n, v)
+        for n in ast.walk(f.node):   # anything written to / read from the context or another object is storage that outlives the call
+            if isinstance(n, ast.Call) and call_name(n) in ("getattr", "setattr", "vars") or (isinstance(n, ast.Attribute) and n.attr == "__dict__"):
+                bad = bad or (n, n)
+        if bad:
+            run.finding(U6, f.qual.replace("src.", "", 1), f"foreign-violations:{norm(bad[1])}", f"{f.qual} can return `{norm(bad[1])}`, which is not built by this call's violation_builder: a stored result carries the rule id of whichever rule parsed the file first, so one linter's syntax-error notice appears under (or disappears from) another's command", f"{f.module.rel}:{bad[0].lineno}")
+        else:
+            run.ok(U6, f.qual.replace("src.", "", 1), "every returned violation list is [] or built by violation_builder in this call")
+    run.require(n_u6 >= 1, "no shared helper with a violation_builder parameter found in src.core")
     return __doc__
+
+
+def _built_by_param(v) -> bool:
+    if isinstance(v, ast.List):
+        return bool(v.elts) and all(_built_by_param(e) for e in v.elts)
+    return isinstance(v, ast.Call) and isinstance(v.func, ast.Attribute) and isinstance(v.func.value, ast.Name) and v.func.value.id == "violation_builder"
+
+
+def _violation_free(v) -> bool:
+    return (isinstance(v, ast.List) and not v.elts) or (isinstance(v, ast.Constant) and v.value is None) or (isinstance(v, ast.Name) and v.id in ("tree", "None"))
+
+
+def _all_names_in(v, built) -> bool:
+    names = [x.id for x in ast.walk(v) if isinstance(x, ast.Name)]
+    return bool(names) and isinstance(v, (ast.Name, ast.List)) and all(nm in built for nm in names)
+
+
+def _mentions_storage(v) -> bool:
+    return any(isinstance(x, ast.Subscript) or (isinstance(x, ast.Attribute) and x.attr.startswith("_")) for x in ast.walk(v))
 
 
 def _language_guard(repo, L, r, f):
